@@ -324,9 +324,10 @@ func (s *Sorter) SortedBlocks(ctx context.Context, removedCols map[int]struct{},
 			}
 
 			// append min row to block
+			// the key is read before columns are removed: pkIndices index the full row
+			copy(rowPK, objects.StrList(minRow).ReadColumns(pkIndices))
 			minRow = r.RemoveFrom(minRow)
 			row := dec.Decode(minRow)
-			slice.CopyValuesFromIndices(row, rowPK, pkIndices)
 			// the first row has no previous key to equal, even if its key is all empty
 			pkOK := pkIsDifferent(rowPK, prevRowPK) || !hasPrevRow
 			hasPrevRow = true
